@@ -1,6 +1,7 @@
 """registry of checks"""
 import json
 import os
+import re
 import subprocess
 
 import core
@@ -153,6 +154,65 @@ def replay(path):
             for owner, field in v["pairs"]:
                 rep.mismatch(owner, v["cls"], field, w)
         rep.samples = events
+    elif w["kind"] == "render":
+        hx = core.build_hx("std")
+        events = core.run_hx(hx, ["decode", "--text", "--ops"], [{"bytes": w["bytes"]}])
+        for e in events:
+            e.pop("rawtext", None); e.pop("calc", None)
+        verdicts, st, tr = core.validate_events("Trace_Render", events, "replay", shards=1)
+        for v in verdicts:
+            for owner, field in v["pairs"]:
+                rep.mismatch(owner, v["cls"], field, w)
+        rep.samples = events
+    elif w["kind"] == "reader":
+        hx = core.build_hx("std")
+        inp = {"bytes": w["bytes"], "script": w["script"], "between": w.get("between", []), "tag": "replay",
+               "prefix": w.get("prefix", 0), "chain": w.get("chain", 0)}
+        events = reader_checks.hx_reader(hx, [inp])
+        verdicts, st, tr = core.validate_events("Trace_Reader", events, "replay", shards=1)
+        for v in verdicts:
+            for owner, field in v["pairs"]:
+                rep.mismatch(owner, v["cls"], field, w)
+        rep.samples = [{k: events[0][k] for k in ("outcome", "calls")}]
+    elif w["kind"] == "feed":
+        bindir = core.build_apps()
+        if w["client"] == "1090":
+            ev = feed_checks.run_1090(bindir, w["segments"], w["sent"], "replay")
+        elif w["mode"] == "retry":
+            ev = feed_checks.run_radar(bindir, [{"segments": w["segments"], "then": "close", "linger": 0.2},
+                                                {"segments": w["second_connection"], "then": "hold"}], w["sent"], "replay", "retry",
+                                       extra_args=["--retry-tcp"])
+        else:
+            ev = feed_checks.run_radar(bindir, [{"segments": w["segments"], "then": "close" if w["mode"] == "close" else "hold"}],
+                                       w["sent"], "replay", w["mode"])
+        verdicts, st, tr = core.validate_events("Trace_Feed", [ev], "replay", shards=1)
+        for v in verdicts:
+            for owner, field in v["pairs"]:
+                rep.mismatch(owner, v["cls"], field, w)
+        rep.samples = [ev]
+    elif w["kind"] == "ui" and "session" in w:
+        bindir = core.build_apps()
+        sess = w["session"]
+        steps = [tuple(x.encode("latin-1") if (st_[0] == "raw" and i == 1) else (tuple(x) if isinstance(x, list) and st_[0] == "resize" else x)
+                       for i, x in enumerate(st_)) for st_ in sess["steps"]]
+        events = ui_checks.session(bindir, steps, "replay", size=tuple(sess["size"]), touch=sess["touch"], filter_time=sess["filter_time"])
+        verdicts, st, tr = core.validate_events("Trace_UI", events, "replay", shards=1, boundary=lambda e: e["ev"] == "session_start")
+        for v in verdicts:
+            for owner, field in v["pairs"]:
+                rep.mismatch(owner, re.sub(r"(model|random)\d+", r"\1", v["cls"]), field, w)
+        rep.samples = events[-1:]
+    elif w["kind"] in ("screen", "config", "ui", "model", "track-event", "track-serde", "icao"):
+        # these witnesses are recorded observations of whole sessions / two-build runs: the recorded event is judged again
+        # by TLC; to re-execute, run the property's check (same seed reproduces the session)
+        ev = w.get("event")
+        if w["kind"] == "screen" and ev:
+            verdicts, st, tr = core.validate_events("Trace_Screen", [{"ev": "session_start", "tag": "replay"}, ev], "replay", shards=1)
+            for v in verdicts:
+                for owner, field in v["pairs"]:
+                    rep.mismatch(owner, v["cls"], field, w)
+        else:
+            print(f"replay of kind {w['kind']}: re-run ./check {prop} --tier quick with VERIF_SEED of the evidence file")
+            return 2
     else:
         raise core.ToolError("unknown replay kind " + w["kind"])
     # a replay must not overwrite the property's evidence file
